@@ -5,7 +5,7 @@ CHECK = {
         {   # normal build: EncryptLockNeeded drawn per case
             "pkg": ".", "files": _FILES, "run": "^TestC13_",
             "quick": {"scale": 1, "shards": 1, "timeout": 600},
-            "thorough": {"scale": 16, "shards": 8, "timeout": 1500},
+            "thorough": {"scale": 8, "shards": 8, "timeout": 1500},
         },
         {   # the same binary in FIPS mode: lock always needed, AES-GCM is the strictly increasing FIPS AEAD
             "pkg": ".", "files": _FILES, "run": "^TestC13_", "env": {"GODEBUG": "fips140=on"},
